@@ -190,6 +190,7 @@ class CallTimeout(BaseException):
 
 CALL_LIMIT_S = float(os.environ.get("VERIF_CALL_LIMIT_S", "12"))
 TIMEOUTS = {"seen": 0}
+LIMIT_SCALE = {"x": 1.0}      # the thorough tier has legitimately heavy calls (4^5 strings, pairwise): its limits are 15 times longer
 
 def call_limit(base):
     """the limit shrinks once calls have timed out (a tree on which calls hang would otherwise cost limit x cases): after 3
@@ -206,7 +207,7 @@ def guard(f):
         def onalarm(signum, frame):
             raise CallTimeout()
         old = signal.signal(signal.SIGALRM, onalarm)
-        prev = signal.setitimer(signal.ITIMER_REAL, call_limit(CALL_LIMIT_S))
+        prev = signal.setitimer(signal.ITIMER_REAL, call_limit(CALL_LIMIT_S * LIMIT_SCALE["x"]))
     try:
         return f()
     except RecursionError:
